@@ -26,6 +26,7 @@ SURROUND = [
     "uint8 K%d = 1 + 1",
     "void3",
     "@assert 'two\nlines' != ''  # a statement continued over two lines",
+    "# form feed \x0c, vertical tab \x0b, NEL \x85, separators \u2028 \u2029 \x1c\x1d\x1e in a comment are not line breaks",
 ]
 
 # (name, statement, needs-line): needs-line False = the fault surfaces when the composite is constructed (no statement
